@@ -5,12 +5,13 @@ import Driver.Deps
 import Driver.Storage
 import Driver.Index
 import Driver.Paths
+import Driver.Creds
 open Lean
 namespace Driver
 
 def dispatch (j : Json) : Json :=
   let op := str j "op"
-  match (C08.run op j <|> Values.run op j <|> Deps.run op j <|> Storage.run op j <|> Index.run op j <|> Paths.run op j) with
+  match (C08.run op j <|> Values.run op j <|> Deps.run op j <|> Storage.run op j <|> Index.run op j <|> Paths.run op j <|> Creds.run op j) with
   | some r => r
   | none => Json.mkObj [("error", jstr s!"unknown-op {op}")]
 
